@@ -179,7 +179,16 @@ fn body_of(len: usize) -> Vec<u8> {
 fn one(p: &mut Part, probe: &ChannelProbe, ch: &Channel, chan: u16, frame_max: usize, exchange: &str, rk: &str, mandatory: bool, immediate: bool, body: &[u8], props: &AmqpProperties, label: Value) {
     p.evaluations += 1;
     p.distinct_nontrivial += 1;
-    let r = std::panic::catch_unwind(std::panic::AssertUnwindSafe(|| ch.basic_publish(exchange, Publish { body, routing_key: rk.to_string(), mandatory, immediate, properties: props.clone() })));
+    // (the message is built the way an application would: by the constructors where they
+    // can express it, as a struct literal otherwise)
+    let msg = if mandatory || immediate {
+        Publish { body, routing_key: rk.to_string(), mandatory, immediate, properties: props.clone() }
+    } else if *props == AmqpProperties::default() {
+        Publish::new(body, rk)
+    } else {
+        Publish::with_properties(body, rk, props.clone())
+    };
+    let r = std::panic::catch_unwind(std::panic::AssertUnwindSafe(|| ch.basic_publish(exchange, msg)));
     let r = match r {
         Ok(r) => r,
         Err(e) => {
